@@ -20,16 +20,18 @@ const modPath = "github.com/boombuler/barcode"
 // Prog is the resolved program: type-checked syntax and SSA of every package of /repo's
 // current working tree (non-test files), plus the canary overlay files.
 type Prog struct {
+	immut   map[*ssa.Global]bool
+	written map[*ssa.Global]bool
 	RepoDir string
 	Fset    *token.FileSet
 	Pkgs    map[string]*packages.Package // key: short name ("barcode", "qr", "utils", ...)
 	SSA     *ssa.Program
 	SSAPkgs map[string]*ssa.Package
 	// all source-level functions (incl. anonymous) of repo packages, canaries excluded
-	Funcs       []*ssa.Function
-	CanaryFuncs []*ssa.Function
-	GOARCH      string
-	sites       map[*ssa.Function][]ssa.CallInstruction
+	Funcs         []*ssa.Function
+	CanaryFuncs   []*ssa.Function
+	GOARCH        string
+	sites         map[*ssa.Function][]ssa.CallInstruction
 	CanaryDropped []string // packages whose canary file did not compile against this tree
 }
 
